@@ -17,6 +17,8 @@ func init() {
 
 func runC10(r *vhlib.Run) {
 	rng := r.Rng
+	// meta.Reader itself against its implementation-level model, per call (Meta/ReaderImpl.v)
+	runWMETAR(r)
 	n, maxPlain := 30, 6000
 	if !r.Quick() {
 		n, maxPlain = 400, 80000
@@ -117,6 +119,8 @@ func runC10(r *vhlib.Run) {
 
 func runC11(r *vhlib.Run) {
 	rng := r.Rng
+	// meta.Reader itself against its implementation-level model, per call (Meta/ReaderImpl.v)
+	runWMETAR(r)
 	n, maxPlain := 40, 4000
 	if !r.Quick() {
 		n, maxPlain = 500, 70000
